@@ -496,8 +496,15 @@ def _run(process_program, process_res):
             tmpdir = tempfile.mkdtemp()
             res = []
             batches = get_batches(iteration - 1)
+            used_packages = set()
             for i in range(batches):
                 packages = (utils.random.word(), utils.random.word())
+                # Generating a program resets the word pool, so the words
+                # drawn for the packages of an earlier program of the batch
+                # may come out again; two programs must not share a directory.
+                while used_packages.intersection(packages):
+                    packages = (utils.random.word(), utils.random.word())
+                used_packages.update(packages)
                 dirname = os.path.join(tmpdir, 'src')
                 pid = iteration + i
                 r = process_program(pid, dirname, packages)
